@@ -53,12 +53,13 @@ MUTS = {
     "M29_round_not_floor_ceil": ("write_font.py", "        int(math.floor(xMin / factor) * factor),\n        int(math.floor(yMin / factor) * factor),\n        int(math.ceil(xMax / factor) * factor),\n        int(math.ceil(yMax / factor) * factor),", "        int(round(xMin / factor) * factor),\n        int(round(yMin / factor) * factor),\n        int(round(xMax / factor) * factor),\n        int(round(yMax / factor) * factor),", ["C05"]),
     "M30_quantise_unrounded": ("write_font.py", "        quantization = round(config.upem * 0.02)\n", "        quantization = config.upem * 0.02\n", ["C05"]),
     "M30b_clip_for_empty": ("write_font.py", "    if bounds is None:\n        return\n    # before quantizing", "    if bounds is None:\n        return (0, 0, 0, 0)\n    # before quantizing", ["C05"]),
-    "M31_no_fixed_safe": ("glyph_reuse.py", "        if not fixed_safe(*affine):\n", "        if False:\n", ["C06", "C19"]),
+    "M31_no_fixed_safe": ("glyph_reuse.py", "            if not fixed_safe(*affine):\n", "            if False:\n", ["C06", "C19"]),
     "M32_tolerance_x10": ("glyph_reuse.py", "            SVGPath(d=glyph_path), SVGPath(d=path), self._reuse_tolerance\n", "            SVGPath(d=glyph_path), SVGPath(d=path), self._reuse_tolerance * 10\n", ["C06"]),
-    "M33_reuse_without_affine_check": ("glyph_reuse.py", "        if affine is None:\n            logging.warning(\"affine_between failed: %s %s \", glyph_path, path)\n            return None\n", "        if affine is None:\n            affine = Affine2D.identity()\n", ["C06", "C01"]),
+    "M33_reuse_without_affine_check": ("glyph_reuse.py", "            if affine is None:\n                logging.warning(\"affine_between failed: %s %s \", glyph_path, path)\n                continue\n", "            if affine is None:\n                affine = Affine2D.identity()\n", ["C06", "C01"]),
     "M82_normalize_tolerance_div1000": ("glyph_reuse.py", "        self._normalize_tolerance = self._reuse_tolerance / 10\n", "        self._normalize_tolerance = self._reuse_tolerance / 1000\n", ["C19"]),
-    "M83_no_reuse_when_mirrored": ("glyph_reuse.py", "        # https://github.com/googlefonts/nanoemoji/issues/313 avoid out of bounds affines\n", "        if affine.determinant() < 0:\n            return None\n", ["C19"]),
-    "M84_cache_keyed_by_raw_path": ("glyph_reuse.py", "        norm_path = normalize(SVGPath(d=path), self._normalize_tolerance).d\n        if norm_path not in self._reusable_paths:", "        norm_path = path\n        if norm_path not in self._reusable_paths:", ["C19"]),
+    "M83_no_reuse_when_mirrored": ("glyph_reuse.py", "            # https://github.com/googlefonts/nanoemoji/issues/313 avoid out of bounds affines\n", "            if affine.determinant() < 0:\n                continue\n", ["C19"]),
+    "M84b_F15_reverted_single_donor": ("glyph_reuse.py", "        self._reusable_paths.setdefault(norm_path, []).append((glyph_name, glyph_path))\n", "        self._reusable_paths[norm_path] = [(glyph_name, glyph_path)]\n", ["C19"]),
+    "M84_cache_keyed_by_raw_path": ("glyph_reuse.py", "        norm_path = normalize(SVGPath(d=path), self._normalize_tolerance).d\n\n        # Several", "        norm_path = path\n\n        # Several", ["C19"]),
     "M64_floor_ppem": ("bitmap_tables.py", "    return round(config.upem * pixels / funits)\n", "    return int(config.upem * pixels / funits)\n", ["C14"]),
     "M65_y_offset_no_half_difference": ("bitmap_tables.py", "                round(line_ascent - 0.5 * (line_height - config.bitmap_resolution)),", "                round(line_ascent),", ["C14"]),
     "M66_strike_not_split_at_gap": ("bitmap_tables.py", "            and color_glyphs[end].glyph_id == color_glyphs[end - 1].glyph_id + 1\n", "            and color_glyphs[end].glyph_id >= color_glyphs[end - 1].glyph_id + 1\n", ["C14"]),
